@@ -17,6 +17,8 @@ var registry = map[string]simkit.World{
 	"C05": fsmworld.C05{},
 	"C06": fsmworld.C06{},
 	"C07": fsmworld.C07{},
+	"C08": fsmworld.ACLWorld{Prop: "C08"},
+	"C09": fsmworld.ACLWorld{Prop: "C09"},
 	"C10": fsmworld.C10{},
 	"C11": fsmworld.C11{},
 	"C13": fsmworld.C13{},
